@@ -3,7 +3,7 @@ ID = "C13"
 PROP = {
     "level": "exploration",
     "rule": ("sets of 1-6 endpoint declarations (method x URL pattern, distinct pairs) whose patterns are variants of one base path "
-             "(segment kept / generalised to {param} / other literal, cut at any depth, optional trailing /*, hosts h.com / api.h.com), "
+             "(segment kept / generalised to {param} (names from one family per case: p1.., user_id1.., order-id1.., and non-ASCII names) / other literal, cut at any depth, optional trailing /*, hosts h.com / api.h.com), "
              "each with a uniquely named remedy of its own remedy type and/or a diagnosis; the set is built with "
              "config.BuildEndpointPolicyTree in every declaration order (<=4 declarations: all permutations, more: identity, reverse and "
              "6 generated permutations) and queried with 8 requests derived from the declared patterns (parameters instantiated with "
